@@ -44,7 +44,7 @@ def _config():
         "parent_hel": st.booleans(),
         "child_hel": st.sampled_from([None, None, True, False]),
         "ls": st.booleans(),
-        "bw": st.booleans(),
+        "bw": st.sampled_from([False, False, True, True, "ff"]),
         "point_seed": st.integers(0, 2**31 - 1),
     })
 
@@ -125,7 +125,14 @@ def _run_case(desc, flags) -> Result:  # noqa: C901, PLR0911, PLR0912, PLR0914, 
     # dynamics: plain relativistic Breit-Wigner on every resonance (not on the initial state)
     bw_names = set()
     if cfg["bw"]:
-        from ampform.dynamics.builder import create_relativistic_breit_wigner  # noqa: PLC0415
+        from ampform.dynamics.builder import (  # noqa: PLC0415
+            create_relativistic_breit_wigner,
+            create_relativistic_breit_wigner_with_ff,
+        )
+
+        if cfg["bw"] == "ff":  # L-dependent lineshape: form factor + energy-dependent width
+            create_relativistic_breit_wigner = create_relativistic_breit_wigner_with_ff  # noqa: F811
+            labels.append("breit_wigner_with_ff")
 
         for t in reaction.transitions:
             for e, s in t.intermediate_states.items():
@@ -203,6 +210,20 @@ def _run_case(desc, flags) -> Result:  # noqa: C901, PLR0911, PLR0912, PLR0914, 
     # every angle/mass symbol the reference needs
     symbols = sorted(symbols, key=str)
     values = draw_values(symbols, rng, n_points)
+    if cfg["bw"] == "ff":
+        # every decay above threshold, at the pole mass too: a sub-system of k final states gets a mass
+        # ~ k^2/4, so that m(k) > m(a) + m(b) for every split k = a + b
+        import re  # noqa: PLC0415
+
+        for sym in symbols:
+            m = re.fullmatch(r"m_(\d+)", sym.name)
+            r = re.fullmatch(r"m_\{R(\d+)\}", sym.name)
+            if m:
+                values[sym] = 0.25 * len(m.group(1)) ** 2 + rng.uniform(0.0, 0.02, n_points)
+            elif r:
+                values[sym] = 0.25 * len(r.group(1)) ** 2 * (1 + rng.uniform(-0.05, 0.05, n_points))
+            elif sym.name.startswith("d_"):
+                values[sym] = rng.uniform(0.5, 2.0, n_points)
     fn = under_test("lambdify", sp.lambdify, symbols, unfolded, "numpy", cse=True)
     out = under_test("evaluate", lambda: fn(*[values[s] for s in symbols]))
     out = [np.broadcast_to(np.asarray(o, dtype=complex), (n_points,)) for o in out]
@@ -256,7 +277,28 @@ def _run_case(desc, flags) -> Result:  # noqa: C901, PLR0911, PLR0912, PLR0914, 
                         w0 = pv[Rf"\Gamma_{{{ident}}}"]
                     except KeyError as exc:
                         return violation("lineshape_symbol_missing_in_model", nontrivial, labels, component=comp_name, symbol=str(exc))
-                    shape *= breit_wigner(m_inv**2, m0, w0)
+                    if cfg["bw"] == "ff":
+                        from vp.ref import dyn  # noqa: PLC0415
+
+                        a_, b_ = ref.children_of(s.topology, node)
+                        inter = s.interactions[node]
+                        ell = inter.l_magnitude
+                        if ell is None and particle.spin.denominator == 1:
+                            ell = int(particle.spin)
+                        try:
+                            ma = pv[ref.mass_name(s.topology, a_)]
+                            mb = pv[ref.mass_name(s.topology, b_)]
+                            # for L = 0 the barrier factor is identically 1 and the radius drops out
+                            radius = pv.get(f"d_{{{ident}}}", 1.0) if ell == 0 else pv[f"d_{{{ident}}}"]
+                        except KeyError as exc:
+                            return violation("lineshape_symbol_missing_in_model", nontrivial, labels, component=comp_name, symbol=str(exc))
+                        out_ = dyn.breit_wigner_ref(
+                            float(np.real(m_inv)) ** 2, float(np.real(m0)), float(np.real(w0)), float(np.real(ma)),
+                            float(np.real(mb)), ell, float(np.real(radius)), "PhaseSpaceFactor", True, True,
+                        )
+                        shape *= out_["value"]
+                    else:
+                        shape *= breit_wigner(m_inv**2, m0, w0)
             ref_terms[idx, k] = c * b * shape
 
     # (a) component level.  Symmetrized copies of a chain share one component name (names do
